@@ -806,7 +806,7 @@ theorem tL_assign {p ex : Ast} (h0 : a.kid 0 = some p) (h1 : a.kid 1 = some ex)
 
 theorem tS_recursionRounds {p step : Ast} {idx : Nat} (h0 : a.kid 0 = some p) (hi : a.kid idx = some step)
     (wp : Wf Γ .DE p) (ws : Wf Γ .S step) (hop : isOperandPos (some a.id) = true) :
-    ∀ (m : Nat) (it : Ty), T0 AnyV AnyC (recursionRounds v a idx m it)
+    ∀ (m : Nat) (it : Ty), T0 AnyV AnyC (recursionRounds Γ.traits v a idx m it)
   | 0, _ => t0_pure _ trivial
   | m+1, it => by
     unfold recursionRounds
@@ -816,7 +816,9 @@ theorem tS_recursionRounds {p step : Ast} {idx : Nat} (h0 : a.kid 0 = some p) (h
     apply t0_bind (t0_expectTy _ _); rintro _ rfl
     split
     · exact t0_pure _ trivial
-    · exact tS_recursionRounds h0 hi wp ws hop m _
+    · split
+      · exact t0_pure _ trivial
+      · exact tS_recursionRounds h0 hi wp ws hop m _
 
 theorem tS_recursion {p init step : Ast} (h0 : a.kid 0 = some p) (h1 : a.kid 1 = some init)
     (hi : a.kid (if a.id == .NT_RECURSIVE_FULL then 3 else 2) = some step)
@@ -835,25 +837,25 @@ theorem tS_recursion {p init step : Ast} (h0 : a.kid 0 = some p) (h1 : a.kid 1 =
   · rename_i h; cases h
   · exact t0_kidErr hi _ _
   · apply t0_bind (t0_expectTy _ _); rintro _ rfl
-    apply t0_bind (V1 := AnyV) (C1 := AnyC)
-    · exact t0_modify _ (fun _ => ⟨rfl, rfl, rfl, rfl⟩)
-    intro _ _
-    apply t0_bind (tS_recursionRounds hv hd h0 hi wp ws hop _ _); intro it _
-    apply t0_bind (V1 := AnyV) (C1 := AnyC)
-    · exact t0_modify _ (fun _ => ⟨rfl, rfl, rfl, rfl⟩)
-    intro _ _
-    have hcond : T0 AnyV AnyC (if (a.id == .NT_RECURSIVE_FULL) = true then visitChild v a 2 else M.pure ()) := by
-      split
-      · rename_i hf; obtain ⟨cond, hk2, wc⟩ := hc hf
-        exact t0_visitChild hv hd hk2 wc (Or.inr rfl)
-      · exact t0_pure _ trivial
     split
     · exact t0_kidErr hi _ _
-    · apply t0_bind hcond; intro _ _
-      apply t0_bind (t0_endScope _); intro _ _
+    · apply t0_bind (V1 := AnyV) (C1 := AnyC)
+      · exact t0_modify _ (fun _ => ⟨rfl, rfl, rfl, rfl⟩)
+      intro _ _
+      apply t0_bind (tS_recursionRounds hv hd h0 hi wp ws hop _ _); intro it _
+      apply t0_bind (V1 := AnyV) (C1 := AnyC)
+      · exact t0_modify _ (fun _ => ⟨rfl, rfl, rfl, rfl⟩)
+      intro _ _
+      have hcond : T0 AnyV AnyC (if (a.id == .NT_RECURSIVE_FULL) = true then visitChild v a 2 else M.pure ()) := by
+        split
+        · rename_i hf; obtain ⟨cond, hk2, wc⟩ := hc hf
+          exact t0_visitChild hv hd hk2 wc (Or.inr rfl)
+        · exact t0_pure _ trivial
       split
       · exact t0_kidErr hi _ _
-      · exact t0_setCur _ (isTy_ty _)
+      · apply t0_bind hcond; intro _ _
+        apply t0_bind (t0_endScope _); intro _ _
+        exact t0_setCur _ (isTy_ty _)
 
 /-! ### calls -/
 
